@@ -12,6 +12,7 @@ import Rustic.Lemmas.Packer
 import Rustic.Lemmas.ArchiveDedup
 import Rustic.Lemmas.PackerDedup
 import Rustic.Props.C06
+import Rustic.Props.C17
 namespace Rustic.Props.C07
 open Rustic.Tree Rustic.Parent Rustic.Archive
 
@@ -241,6 +242,113 @@ theorem indexed_never_shrinks (s : PSt) (evs : List Ev) (k : Key) (h : k ∈ s.i
   | nil => exact h
   | cons ev evs ih => exact ih (step s ev) (indexed_mono s ev k h)
 
+/-! ### The chunks of a file are those of its CONTENT — whatever size its node records
+
+`FileArchiver::backup_reader` hands `node.meta.size` to the chunker only as an allocation hint (`ChunkIter::from_config(.., size_hint)`:
+`Vec::with_capacity(size_hint.min(min_size))`); the chunk list is `chunksSpec` (C06) of the bytes the reader delivers.  Nodes whose
+recorded size is not the content length are ordinary: `backup -` / `--stdin-command` (`Metadata::default()`: size 0), block devices
+saved as files, files that grow or shrink between `stat` and read. -/
+
+/-- (7) **What a backup without parent uploads is a function of the item contents**: the `data_packer.add` sequence is, item by item,
+the chunks of the content that the index lacks (`itemAdds`) — no term of it mentions the node's metadata. -/
+theorem full_backup_adds_are_content_chunks {γ} (H : List Node → Id) (chunk : γ → List Id) (len : γ → Nat)
+    (load : Id → Option (List Node)) (hasData hasTree : Id → Bool) (o : Opts) (items : List (Item γ)) (a : ArchOut)
+    (ha : archive H chunk len load hasData hasTree o [] items = some a) :
+    a.dataAdds = (items.map (itemAdds chunk hasData)).flatten := by
+  have hE0 : EmptyP (PState.init load []) := ⟨rfl, by intro t h; cases h⟩
+  simp only [archive] at ha
+  split at ha
+  · cases ha
+  · split at ha
+    · cases ha
+    · injection ha with ha; subst ha
+      exact adds_of_full_run chunk len o load hasData items _ hE0
+
+/-- whether `Archiver::archive` succeeds does not depend on recorded sizes: the only failure of a backup without parent is
+"Tree stack is empty", decided by the bracket structure of the item stream -/
+theorem archive_succeeds_whatever_the_recorded_sizes {γ} (H : List Node → Id) (chunk : γ → List Id) (len : γ → Nat)
+    (load : Id → Option (List Node)) (hasData hasTree : Id → Bool) (o : Opts) (items : List (Item γ)) (f : Node → Nat) :
+    (archive H chunk len load hasData hasTree o [] (items.map (resizeItem f))).isSome =
+      (archive H chunk len load hasData hasTree o [] items).isSome := by
+  have hE0 : EmptyP (PState.init load []) := ⟨rfl, by intro t h; cases h⟩
+  simp only [archive]
+  rw [run_resize o load hasData f items _ hE0, hasPanic_resize]
+  by_cases hp : hasPanic (run o load hasData (PState.init load []) items) = true
+  · simp [hp]
+  · simp only [hp, Bool.false_eq_true, if_false]
+    have hshape : (List.map (fun x => x.1) (List.filterMap (fileStep chunk len hasData)
+          (List.map (resizeOut f) (run o load hasData (PState.init load []) items)))).map tshape =
+        (List.map (fun x => x.1) (List.filterMap (fileStep chunk len hasData)
+          (run o load hasData (PState.init load []) items))).map tshape := by
+      rw [List.map_map, List.map_map, List.filterMap_map, List.map_filterMap, List.map_filterMap]
+      congr 1
+      funext out
+      exact fileStep_resize_shape chunk len hasData f out
+    have hs := addAll_isSome_shape H H hasTree hasTree _ _ ({} : TA) ({} : TA) hshape rfl
+    revert hs
+    cases TA.addAll H hasTree {} (List.map (fun x => x.1) (List.filterMap (fileStep chunk len hasData)
+        (List.map (resizeOut f) (run o load hasData (PState.init load []) items)))) <;>
+      cases TA.addAll H hasTree {} (List.map (fun x => x.1) (List.filterMap (fileStep chunk len hasData)
+        (run o load hasData (PState.init load []) items))) <;> simp
+
+/-- (7') **… independent of the recorded size.**  Give every non-directory node ANY other recorded size (`f`; e.g. 0 for all: the
+same tree read from streams): the backup succeeds as well and hands the same blobs to the data packer, in the same order. -/
+theorem chunks_independent_of_recorded_size {γ} (H : List Node → Id) (chunk : γ → List Id) (len : γ → Nat)
+    (load : Id → Option (List Node)) (hasData hasTree : Id → Bool) (o : Opts) (items : List (Item γ)) (f : Node → Nat)
+    (a : ArchOut) (ha : archive H chunk len load hasData hasTree o [] items = some a) :
+    ∃ a', archive H chunk len load hasData hasTree o [] (items.map (resizeItem f)) = some a' ∧ a'.dataAdds = a.dataAdds := by
+  have hs := archive_succeeds_whatever_the_recorded_sizes H chunk len load hasData hasTree o items f
+  rw [ha] at hs
+  obtain ⟨a', ha'⟩ := Option.isSome_iff_exists.mp hs
+  refine ⟨a', ha', ?_⟩
+  rw [full_backup_adds_are_content_chunks H chunk len load hasData hasTree o _ a' ha',
+    full_backup_adds_are_content_chunks H chunk len load hasData hasTree o _ a ha, List.map_map]
+  congr 1
+  apply List.map_congr_left
+  intro it _
+  exact itemAdds_resize chunk hasData f it
+
+/-- (7'') With the C06 chunker as `chunk`: once the chunks of a content are indexed (it was backed up from a FILE, say), a node of
+any recorded size delivering the same bytes (the same content from a STREAM) hands nothing to the data packer. -/
+theorem stored_content_adds_nothing_whatever_the_node {σ : Type} (r : Chunker.Roll σ) (p : Chunker.Params)
+    (hash : Chunker.Bytes → Id) (hasData : Id → Bool) (x : Chunker.Bytes)
+    (hold : ∀ c ∈ Chunker.chunksSpec r p x, hasData (hash c) = true) (node : Node) :
+    itemAdds (fun bs => (Chunker.chunksSpec r p bs).map hash) hasData (Item.other node x) = [] := by
+  simp only [itemAdds]
+  split
+  · rw [List.filter_eq_nil_iff]
+    intro id hid
+    obtain ⟨c, hc, rfl⟩ := List.mem_map.mp hid
+    simp [hold c hc]
+  · rfl
+
+/-! ### "… once the index has been reloaded": a reload never hands out a partial index
+
+`Repository::to_indexed_ids` = `GlobalIndex::new_from_collector` (model `IndexLoad.loadRepo`, proved for C17): the `?` on every
+streamed index file.  (3) `rebackup_adds_nothing` asks for an index containing what the first index had plus what the first run
+added; these two theorems say that a reload either delivers that or fails. -/
+
+/-- (8) a backend read error of ANY index file makes the reload fail — no index is handed to the backup -/
+theorem reload_with_unreadable_index_file_fails (m : Index.IndexType) (stream : List IndexLoad.RepoFile)
+    (h : ∃ f ∈ stream, f.readFails = true) : ∃ e, IndexLoad.loadRepo m stream = .error e := by
+  obtain ⟨f, hf, hr⟩ := h
+  have hmem : Except.error IndexLoad.LoadErr.backend ∈ stream.map IndexLoad.getFile :=
+    List.mem_map.mpr ⟨f, hf, by simp [IndexLoad.getFile, hr]⟩
+  obtain ⟨e, he, _⟩ := C17.load_fails_if_any_file_fails m _ _ (C17.loadResults_is_outcome m _) ⟨_, hmem⟩
+  exact ⟨e, he⟩
+
+/-- (8') a reload that succeeds has read EVERY index file, and `has` answers true for every blob any of them lists in a pack not
+marked for deletion (`to_indexed_ids`: data and tree ids) — the hypothesis of (3). -/
+theorem reloaded_index_has_every_listed_blob (stream : List IndexLoad.RepoFile) (idx : Index.Index)
+    (h : IndexLoad.loadRepo .dataIds stream = .ok idx) :
+    ∃ files, stream.map IndexLoad.getFile = files.map Except.ok ∧
+      (C17.WF files → ∀ t id, C17.ListedUnmarked files t id → idx.has t id = true) := by
+  have ho := C17.loadResults_is_outcome .dataIds (stream.map IndexLoad.getFile)
+  rw [show IndexLoad.loadResults .dataIds (stream.map IndexLoad.getFile) = .ok idx from h] at ho
+  obtain ⟨files, hfiles, hl⟩ := C17.load_ok_means_every_file_loaded _ _ _ ho
+  refine ⟨files, hfiles, fun hwf t id hli => ?_⟩
+  exact (C17.has_iff .dataIds files hwf idx hl t id).mpr ⟨by cases t <;> rfl, hli⟩
+
 /-! ### Witnesses -/
 
 /-- The code as found (`typed = false`: one `BTreeSet<BlobId>` for both packers) loses the tree: the data
@@ -274,5 +382,24 @@ example :
     copies s .data 1 = 1 ∧
     (keysOf (finalizeAll (runEvs s [.enter .data 1, .enter .data 2, .commit .data, .commit .data, .flush .data,
       .enter .data 1, .commit .data])).packs).count (.data, 1) = 1 := by decide
+
+/-- Non-vacuity of (7)/(7'): the chunks a file node and a stdin-style node (recorded size 0) of the same content hand over are the
+same three ids; with chunk 2 indexed only 1 and 3 go to the packer — and a node of another kind hands over nothing. -/
+example :
+    let chunk : List Nat → List Id := fun bs => bs
+    let file : Node := { name := [102], kind := .file, md := { size := 3, mtime := some 1, ctime := some 1, inode := 0 } }
+    itemAdds chunk (fun _ => false) (Item.other file [1, 2, 3]) = [1, 2, 3] ∧
+    itemAdds chunk (fun _ => false) (resizeItem (fun _ => 0) (Item.other file [1, 2, 3])) = [1, 2, 3] ∧
+    itemAdds chunk (· == 2) (resizeItem (fun _ => 0) (Item.other file [1, 2, 3])) = [1, 3] ∧
+    itemAdds chunk (fun _ => false) (Item.other { file with kind := .symlink [] } [1, 2, 3]) = [] := by decide
+
+/-- Non-vacuity of (8)/(8'): two index files, the read of the second fails ⇒ the reload fails with the backend's error; without
+the fault the reload succeeds. -/
+example :
+    let f1 : Index.IndexFile := { packs := [{ id := 1, blobs := [], size := none }], packsToDelete := [] }
+    let f2 : Index.IndexFile := { packs := [{ id := 2, blobs := [], size := none }], packsToDelete := [] }
+    (∃ e, IndexLoad.loadRepo .dataIds [⟨false, .sealed (.file f1)⟩, ⟨true, .sealed (.file f2)⟩] = .error e) ∧
+    (∃ idx, IndexLoad.loadRepo .dataIds [⟨false, .sealed (.file f1)⟩, ⟨false, .sealed (.file f2)⟩] = .ok idx) :=
+  ⟨reload_with_unreadable_index_file_fails _ _ ⟨_, List.mem_cons_of_mem _ List.mem_cons_self, rfl⟩, ⟨_, rfl⟩⟩
 
 end Rustic.Props.C07
